@@ -1,7 +1,6 @@
 package checks
 
 import (
-	"sort"
 	"bytes"
 	"crypto/ecdh"
 	crand "crypto/rand"
@@ -10,6 +9,7 @@ import (
 	"io"
 	"math/big"
 	"net"
+	"sort"
 	"strings"
 	"time"
 
@@ -34,8 +34,8 @@ type c04Cell struct {
 	Restart  bool   `json:"restart"` // verify against a restarted transport on the same storage
 	ReqSize  int    `json:"req"`     // total size of the encrypted PUT request (0 = small)
 	WrongPin bool   `json:"wrong_pin"`
-	SameConn bool   `json:"same_conn"` // pair-verify on the connection that did pair-setup
-	Retry    bool   `json:"retry"`     // first a complete attempt with a wrong code on the same connection, then the right code
+	SameConn bool   `json:"same_conn"`         // pair-verify on the connection that did pair-setup
+	Retry    bool   `json:"retry"`             // first a complete attempt with a wrong code on the same connection, then the right code
 	Segment  int    `json:"segment,omitempty"` // every pairing request body arrives in two TCP segments cut here (negative: from the end)
 	RePair   bool   `json:"repair,omitempty"`  // afterwards the same identifier pairs again with a new key pair and verifies with it
 }
